@@ -46,8 +46,11 @@ fn string_forms(body: &str, extra_newlines: bool) -> Vec<(String, &'static str)>
     if !body.contains("]=]") {
         v.push((format!("[=[{body}]=]"), "long1"));
     }
-    if extra_newlines && body.contains('\n') {
-        v.push((format!("\"{}\"", body.replace('\n', "\r\n")), "double-crlf"));
+    if body.contains('\n') {
+        if extra_newlines {
+            v.push((format!("\"{}\"", body.replace('\n', "\r\n")), "double-crlf"));
+        }
+        // line breaks of a long string written as CR LF or as a lone CR (each is one line break of the value)
         v.push((format!("[[{}]]", body.replace('\n', "\r\n")), "long0-crlf"));
         v.push((format!("[[{}]]", body.replace('\n', "\r")), "long0-cr"));
     }
@@ -660,7 +663,12 @@ const C06_OPERANDS: [&str; 12] = [
 
 // (`if A == B then` / `while A and B do` are not listed: a hanging condition measures the source text of its operands,
 // known finding KF-layout-instability, so compactly written operands fail below the natural width on the unchanged tree)
-const C06_TEMPLATES: [(&str, &str); 13] = [
+const C06_TEMPLATES: [(&str, &str); 16] = [
+    // a blank line (or a plain line break) behind the separator of a list that fits on one line
+    ("call-blank-line", "call({A},\n\n\t{B})\n"),
+    ("method-blank-line", "object:method({A},\n\n\t{B})\n"),
+    ("call-line-break", "call({A},\n\t{B})\n"),
+    // (the same shape in a table constructor fails on the unchanged tree - KF-blank-line-in-statement - and is left out)
     ("return", "local function pair()\n\treturn {A}, {B}\nend\n"),
     ("return-top", "return {A}, {B}\n"),
     ("local", "local one, two = {A}, {B}\n"),
@@ -716,6 +724,11 @@ pub fn c06_extra(rep: &mut Reporter, stats: &mut Stats, tier: Tier, _findings: &
                 }
                 widths.sort();
                 widths.dedup();
+                if name.ends_with("-blank-line") || name.ends_with("-line-break") {
+                    // (near the boundary these shapes are re-decided by the second pass on the unchanged tree as well - the
+                    // D9 reason; with room to spare the first pass must already be final)
+                    widths = vec![wf + 8, 120, usize::MAX];
+                }
                 for w in widths {
                     let case = Case::new(program.clone(), Cfg { column_width: w, ..base });
                     let (out, _) = run_format(&case);
